@@ -393,7 +393,7 @@ func (x *Exec) applyContractWith(c *callCtx, fc *FuncContract, sig *types.Signat
 			x.contractError(c.fr, r, fmt.Errorf("at call from %s: %v", c.fr.fn.Name(), err))
 			continue
 		}
-		if top != nil && top.contract != nil {
+		if top != nil && top.contract != nil && c.fr.depth == 0 {
 			ob := &Obligation{Name: fmt.Sprintf("%s#call:%s#requires%d@%d", top.contract.Key(), fc.Key(), i+1, seq), Kind: "requires", Fn: top.contract.Key(),
 				Props: unionProps(top.contract.Props, clauseProps(fc, r)), Clause: r.Src, Pos: x.prog.pos(c.instr.Pos())}
 			if c.fr.depth > 0 {
